@@ -60,7 +60,22 @@ func setDurationField(field reflect.Value, fieldType reflect.Type, isPtr bool, v
 }
 
 // deserializeParams reads row 0 from a record batch into a Go struct.
-func deserializeParams(batch arrow.RecordBatch, target reflect.Type) (reflect.Value, error) {
+func deserializeParams(batch arrow.RecordBatch, target reflect.Type) (out reflect.Value, err error) {
+	// The schema check below only covers the outer parameter batch. Payloads
+	// nested inside it — the IPC stream in an ArrowSerializable binary column,
+	// a wrapped "request" batch — are client bytes whose schema nothing has
+	// compared against the Go type, so binding them can hit a reflect Kind
+	// mismatch, a failed array type assertion or an out-of-range row. This
+	// runs before (and outside) the handler recover on every transport, so
+	// turn such a panic into the ordinary deserialization error here; the
+	// callers already answer that with a TypeError and keep serving.
+	defer func() {
+		if rv := recover(); rv != nil {
+			out = reflect.Value{}
+			err = fmt.Errorf("malformed parameter value: %v", rv)
+		}
+	}()
+
 	if target.Kind() == reflect.Ptr {
 		target = target.Elem()
 	}
